@@ -343,7 +343,7 @@ def bound_to_declarer(ctx):
         ctx.check(ok, f"{short(b.name)}/project-dir-of-declarer", [site(b, bb)], "the directory given to the target transformation is not the one stored with the project the target was taken from")
 
 
-@rule("C13.CONSUMERS-SEE-ALL", ["C13"], """the watcher ranges over all file resources of the (extended) input, and the lister over all resources and all their paths""", "K5", floor=2)
+@rule("C13.CONSUMERS-SEE-ALL", ["C13", "C06"], """the watcher ranges over all file resources of the (extended) input, and the lister over all resources and all their paths""", "K5", floor=2)
 def consumers_see_all(ctx):
     f = ctx.f
     r = ctx.r
@@ -356,7 +356,7 @@ def consumers_see_all(ctx):
                 exits = [e for bl in blks for e in w.succ.get(bl, ()) if e.dst not in blks and w.term(e.dst)["k"] != "unreachable"]
                 other = [e for e in exits if not (ne is not None and e.src == ne.src and e.dst == ne.dst)]
                 ok = not other and not [c for c in atom_callres(it_atoms) if re.search(r"::(take|skip|filter|step_by)$", c)]
-        ctx.check(ok, f"{short(w.name)}/all-file-resources", [w.loc()], "the watcher does not cover every file resource of the input (inherited ones would not be watched)")
+        ctx.check(ok, f"{short(w.name)}/all-file-resources", [w.loc()], "the watcher does not cover every file resource of the input (inherited ones would not be watched)", props=["C13", "C06"])
     # the listing entry points map over all resources / all paths
     for ln in r.listers():
         callers = {r.outer_fn(cb).name for (cb, bb, t) in r.callers_of(f.bodies[ln])}
@@ -364,7 +364,7 @@ def consumers_see_all(ctx):
             cb = f.coroutine_of(c) or f.bodies[c]
             maps = [(bb, t) for bb, t in cb.calls() if re.search(r"Iterator>::map(::<.*>)?$", callee_decl(t))]
             whole = [bb for bb, t in maps if not [x for x in atom_callres(cb.prov.operand_atoms(t["args"][0])) if re.search(r"::(take|skip|filter|step_by)$", x)]]
-            ctx.check(bool(whole) and len(whole) == len(maps), f"{short(c)}/all-paths", [cb.loc()], "the listing does not map over every declared path")
+            ctx.check(bool(whole) and len(whole) == len(maps), f"{short(c)}/all-paths", [cb.loc()], "the listing does not map over every declared path", props=["C13"])
 
 
 # ------------------------------------------------------------------ C15
@@ -489,7 +489,41 @@ def regular_files(ctx):
         ctx.check(not bad, f"{short(ln)}/walk-errors-dropped", [site(b, bb) for b, bb in bad] or [f.bodies[ln].loc()], "a walk error (e.g. a missing declared path) panics instead of contributing nothing")
 
 
-@rule("C15.NORMALISE", ["C15"], """declared extensions are normalised: empty entries dropped, a missing leading dot added, an empty list means no filter""", "K2", floor=3)
+@rule("C15.FILTER-PAIRING", ["C15", "C13", "C16", "C06"], """each declared path keeps the extension filter of its own resource: no collection is keyed by path with a filter as value, and filters of
+      different resources are never accumulated into one collection (grouping paths under a key made of the resource's own filter is the accepted idiom)""", "K4", floor=1)
+def filter_pairing(ctx):
+    f = ctx.f
+    n = 0
+    for b in f.user_bodies():
+        for bb, t in b.calls():
+            decl = callee_decl(t)
+            m = re.search(r"::(insert|or_insert|or_insert_with|or_default|extend|extend_from_slice|push|push_back|append|entry|from_iter|collect)(::<.*>)?$", decl)
+            if not m or len(t["args"]) < 1:
+                continue
+            api = m.group(1)
+            vals = t["args"][1:] if api not in ("collect", "from_iter") else t["args"]
+            for a in vals:
+                at = b.prov.operand_atoms(a)
+                ext = atom_has_field(at, "extensions", "FilesResource")
+                pth = atom_has_field(at, "paths", "FilesResource")
+                if not (ext or pth):
+                    continue
+                n += 1
+                inst = f"{short(b.name)}/{api}@{bb}"
+                if api == "entry":
+                    ctx.check(ext or not pth, f"{short(b.name)}/keyed-by-own-filter", [site(b, bb)], "a collection is keyed by path: when two resources name the same path with different filters, one filter is lost")
+                elif api in ("collect", "from_iter"):
+                    # collecting (filter, paths) pairs into a map overwrites equal keys instead of merging them
+                    is_map = re.search(r"(Hash|BTree)Map<", b.locals[t["dest"]["local"]]["ty"]) is not None if t.get("dest") else False
+                    ctx.check(not (is_map and ext and pth), f"{short(b.name)}/pairs-not-collected-into-map", [site(b, bb)],
+                              "(filter, paths) pairs are collected into a map: resources with equal filters overwrite each other and their paths are lost")
+                else:
+                    ctx.check(pth or not ext, f"{short(b.name)}/filters-not-merged", [site(b, bb)],
+                              "extension filters of different resources are accumulated into one collection (or stored per path): a path is no longer filtered by its own resource's filter")
+    ctx.need(n >= 1, "a collection built from the paths / filters of file resources")
+
+
+@rule("C15.NORMALISE", ["C15", "C12"], """declared extensions are normalised: empty entries dropped, a missing leading dot added, an empty list means no filter""", "K2", floor=3)
 def normalise(ctx):
     f = ctx.f
     fns = [b for b in f.user_bodies() if b.kind == "Fn" and "Option<std::vec::Vec<std::string::String>>" in (b.locals[1]["ty"] if b.argc >= 1 else "") and "BTreeSet<std::string::String>" in b.ret]
@@ -784,7 +818,7 @@ def identity(ctx):
             ctx.check({"project_name", "target_name"} <= allf, "Display", [x.loc()], f"Display of TargetId prints {sorted(allf & {'project_name', 'target_name'})} only: state files / offered names of different projects collide")
 
 
-@rule("C13.FROM-INPUT-LIST-INTACT", ["C13", "C09"], """the list of `X.output` producers returned by the target transformation reaches the inheritance/validation loop intact: nothing is removed
+@rule("C13.FROM-INPUT-LIST-INTACT", ["C13", "C09", "C02"], """the list of `X.output` producers returned by the target transformation reaches the inheritance/validation loop intact: nothing is removed
       from it, and the loop ranges over all of it""", "K5", floor=1)
 def from_input_list_intact(ctx):
     f = ctx.f
@@ -802,7 +836,10 @@ def from_input_list_intact(ctx):
         if not any("extend_input" in callee_base(t) for x, t in b.calls() if x in blks):
             continue
         ok = True
-        odd = sorted(c for c in atom_callres(it_atoms) if re.search(r"::(filter|filter_map|skip|take|take_while|skip_while|step_by|retain|dedup\w*|drain|truncate|split_off)(::<.*>)?$", c))
+        odd = sorted(c for c in atom_callres(it_atoms) if re.search(r"::(filter|filter_map|partition|skip|take|take_while|skip_while|step_by|retain|dedup\w*|drain|truncate|split_off)(::<.*>)?$", c))
+        # the list must reach the loop as the transformation returned it: a crate-local function in between may drop entries
+        inner = f.cg.reach(list(tfn), cross_spawn=False)
+        odd += sorted(short(c) for c in atom_callres(it_atoms) if c in f.bodies and c not in tfn and c not in inner and not f.is_derived(f.bodies[c]))
         ctx.check(not odd, f"{short(b.name)}/loop-over-whole-list", [site(b, nbb)], f"the inheritance loop ranges over a filtered list ({odd}): some `X.output` producer is neither validated nor inherited")
     ctx.check(ok, f"{short(b.name)}/loop", [b.loc()], "no loop over the `X.output` producers that extends the consumer's input")
     muts = []
